@@ -77,7 +77,7 @@ def batches(tier):
 # ----------------------------------------------------------------------------
 
 CLOUD_CLASSES = ["random", "interior", "near_flat", "skewed", "simplex", "box", "clustered",
-                 "flat"]
+                 "flat", "small_units"]
 
 
 def make_cloud(rng: PlanRng, dim, cls):
@@ -105,6 +105,12 @@ def make_cloud(rng: PlanRng, dim, cls):
         from itertools import product
         Pm = np.array(list(product([0.0, 1.0], repeat=dim))) * rng.g.uniform(0.5, 3.0, dim)
         Pm = np.vstack([Pm, Pm.mean(0)[None]])
+    elif cls == "small_units":
+        # an ordinary cloud expressed in small units (simplex volumes around 1e-9..1e-6, some
+        # cells much smaller than others): absolute tolerances in the code show up here
+        Pm = rng.g.normal(size=(m, dim)) * float(rng.choice([3e-2, 1e-2, 3e-3]))
+        Pm[: m // 3] *= 0.15
+        return sig(Pm)
     elif cls == "flat":
         # exactly rank-deficient: all points in a (dim-1)-dimensional affine subspace.  There is
         # no volume to be uniform in, so the call may refuse (QhullError); if it answers, count,
@@ -173,7 +179,11 @@ def generate(rs, mode, tier, index):
     dim = rng.integers(2, 4)
     clouds = {}
     for j in range(rng.integers(1, 3)):
-        cls = rng.choice(CLOUD_CLASSES, p=[3, 2, 2, 2, 1, 1, 1, 1])
+        cls = rng.choice(CLOUD_CLASSES, p=[3, 2, 2, 2, 1, 1, 1, 1, 2])
+        if mode == "uniform" and j == 0:
+            # the uniformity batch walks through the classes so that every invocation tests each
+            vol = [c for c in CLOUD_CLASSES if c != "flat"]
+            cls = vol[index % len(vol)]
         clouds[f"P{j}"] = {"cls": cls, "P": make_cloud(rng, dim, cls)}
     sysd = make_system(rng) if rng.coin(0.6) or mode == "uniform" and rng.coin(0.5) else None
     targets = list(clouds) + (["est"] if sysd else [])
@@ -183,7 +193,7 @@ def generate(rs, mode, tier, index):
     perturb_p = 0.5 if mode != "clean" else 0.25
 
     def uniform_call():
-        tgt = rng.choice(targets)
+        tgt = rng.choice(targets, p=[3.0] + [1.0] * (len(targets) - 1))
         c = {"t": tgt, "n": 20000, "engine": None, "seed": rng.integers(0, 2 ** 31),
              "uniform": True}
         if tgt == "est":
